@@ -51,10 +51,20 @@ class History:
         self.extra_files = extra_files or {}
         self.tree = {n: self._norm(tree.get(n, [])) for n in self.names}
         self.present = {n: (n in tree) for n in self.names}
+        # names starting with "^" are created BEFORE the sources (a directory walk that is not sorted hands out files in an
+        # order that depends on when they were created)
+        for rel, data in self.extra_files.items():
+            if rel.startswith("^"):
+                p = os.path.join(self.proj.proj, rel[1:])
+                os.makedirs(os.path.dirname(p), exist_ok=True)
+                with open(p, "wb") as fh:
+                    fh.write(data if isinstance(data, bytes) else data.encode())
         self._materialise_all()
         self.proj.set_lock(self._real_lock(lock))
         self.abs_lock = self._abs_lock(self.proj.get_lock())
         for rel, data in self.extra_files.items():
+            if rel.startswith("^"):
+                continue
             p = os.path.join(self.proj.proj, rel)
             os.makedirs(os.path.dirname(p), exist_ok=True)
             with open(p, "wb") as fh:
